@@ -27,7 +27,7 @@ SPECS = [
       "same inputs as vk_read.total", "vk-read:commitment-count-unchecked", est=45, timeout={"quick": 300, "thorough": 900}, min_covers=2, stubs=VK_STUBS,
       replay=False),  # counterexample via PINS below (Kani's playback emits tests for the covers only, after ~300 s)
     H("h_domain::domain_prefix_min_degree", "C16.K.domain.prefix.min_degree",
-      "the integer prefix of EvaluationDomain::new(j = 3, k) (j - 1, 1 << k, the extended_k loop, assert!(extended_k <= F::S)) does not panic for any header byte k that read_from_cs lets through (k <= F::S = 32)",
+      "the integer prefix of EvaluationDomain::new(j = 3, k) (j - 1, 1 << k, the extended_k loop, assert!(extended_k <= F::S)) does not panic for any header byte k that read_from_cs lets through (k <= F::S = 32 and extended_k_for(j, k) <= F::S; that the reader calls new only there is proved by vk_read.total, whose stand-in for new asserts this precondition)",
       [f"{PD}::EvaluationDomain::new (up to the first field operation)", f"{PM}::VerifyingKey::read_from_cs (its only check on k)"],
       "all k in 0..=32, j = 3 (the minimum cs.degree() of a constraint system with a permutation argument); F = CutF (S = 32, every field operation ends the path)",
       "vk-read:k-domain-assert", est=5, min_covers=2),
@@ -35,13 +35,13 @@ SPECS = [
       "same for every degree j in 3..=17",
       [f"{PD}::EvaluationDomain::new (up to the first field operation)"], "all k in 0..=32, all j in 3..=17", "domain-new:extended-k-assert", est=5),
     H("h_arch::arch_read_total", "C16.K.arch.read_total",
-      "ZkStdLibArch::read returns a value on any buffer of <= 18 bytes, accepts only version word 1 and at least 16 bytes, and passes the wire byte of nr_pow2range_cols through unvalidated (cover: 200 is accepted)",
+      "ZkStdLibArch::read returns a value on any buffer of <= 18 bytes, accepts only version word 1 and at least 16 bytes, and lets through only nr_pow2range_cols < 5 (what ZkStdLib::configure / Pow2RangeChip::configure accept; cover: 4 is accepted)",
       [f"{ZL}::ZkStdLibArch::read", "bincode::decode_from_std_read (third party, executed)"], "all buffers of length 0..=18", "arch-read:total", est=60,
       timeout={"quick": 400, "thorough": 900}, min_covers=3, stubs=["std::fmt::format"]),
     H("h_arch::pow2range_configure_column_count", "C16.K.pow2range.column_count",
       "Pow2RangeChip::configure(meta, columns) does not panic for any number of columns the decoder lets through (ZkStdLib::configure passes &advice_columns[1..=nr_pow2range_cols], nr_pow2range_cols verbatim from the wire)",
       ["circuits/src/field/decomposition/pow2range.rs::Pow2RangeChip::configure", f"{ZL}::ZkStdLib::configure (call site, not executed)"],
-      "all column counts 0..=6; the constraint system is an empty one (all-zero memory)", "vk-read:nr_pow2range_cols-out-of-range", est=10, min_covers=2,
+      "all column counts 0..=4 (what arch.read_total proves the decoder lets through); the constraint system is an empty one (all-zero memory)", "vk-read:nr_pow2range_cols-out-of-range", est=10, min_covers=2,
       stubs=["midnight_proofs::plonk::ConstraintSystem::lookup (Expression-tree walk)"],
       replay=False),  # counterexample via PINS below (Kani's playback run exceeds 20 GB)
     H("h_transcript::serde_read_g1_processed_checked", "C16.K.serde.g1.processed",
@@ -79,7 +79,6 @@ def check(run):
 PINS = {
     # obligation id -> (main harness, [(pinned harness, concrete_vals of the main harness)])
     "C16.K.pow2range.column_count": ("h_arch::pow2range_configure_column_count", [
-        ("h_arch::pow2range_pin_5", [[5]]), ("h_arch::pow2range_pin_6", [[6]]),
         ("h_arch::pow2range_pin_0", [[0]]), ("h_arch::pow2range_pin_4", [[4]])]),
     "C16.K.vk_read.postcondition": ("h_vk_read::vk_read_postcondition", [
         ("h_vk_read::vk_read_postcondition_pin_0", [[3], [0], [0], [0], [0], [0], [0], [0], [8, 0, 0, 0, 0, 0, 0, 0]]),
